@@ -8,7 +8,9 @@ THEOREMS = ["Mpir.Printf.snprintf_bound", "Mpir.Printf.doprnti_eq_c99", "Mpir.Pr
 TRUSTED = ["hand-written model lean/Mpir/Model/Printf.lean of printf/doprnt.c, doprnti.c, snprntffuns.c, asprntffuns.c, vasprintf.c (tied by correspondence on every run)",
            "the C99 specification function cFormatCore/cprintfInt is written from ISO C99 7.19.6.1 and validated against glibc's snprintf on every run (glibc column of the gmp_snprintf_* ops)",
            "harness passes variable arguments as twelve 64-bit slots (x86-64 SysV ABI)"]
-ASSUMPTIONS = ["mpz_get_str/mpq_get_str digits are taken from their specification (natDigits); C06 owns their correctness",
+ASSUMPTIONS = ["on record, judged not to violate C18 as worded: gmp_*scanf %Zx/%Qx does not accept a 0x/0X prefix, unlike C's %x (text printed with %#Zx is read back by %Zi); %% in a scanf format does not skip white space, unlike C99/glibc",
+               "the round-trip op demands equality for the matching read conversion (%Zd for %Zd/%Zi output, %Zo for %Zo, %Zx for %Zx/%ZX without '#', %Zi for '#' forms and plain decimal); Q only without precision",
+               "mpz_get_str/mpq_get_str digits are taken from their specification (natDigits); C06 owns their correctness",
                "the C library's vsnprintf is C99 conforming (returns the full length); %F layout is not modelled in this part"]
 RULE = ("exhaustive cross product flags subsets(32) x width {none,1,5,40,*,-*} x precision {none,.,.0,.1,.5,.40,.*} x conv {d,i,o,x,X} "
         "x type {Z,N (15 values incl. LONG_MIN/MAX, +-2^64, +-10^40), Q, M}; snprintf sizes 0..len+1 on sampled formats; mixed standard/MPIR formats "
@@ -153,9 +155,70 @@ def asprintf_lengths(rng, tier):
             yield "%s %s %s %s %s" % (fam, sbytes("%s%s"), sbytes("ss"), sbytes("a" * 200), sbytes("b" * (L - 200)))
         yield "%s %s %s" % (fam, sbytes(""), sbytes(""))
 
+# ---- input: read-back of printed text, field scanning, malformed input
+def roundtrip(rng, tier):
+    match = {"d": "d", "i": "d", "o": "o", "x": "x", "X": "X"}
+    for fl in FLAGSETS:
+        for w in ["", "1", "12", "40"]:
+            for c in CONVS:
+                for p in ["", ".0", ".1", ".7"]:
+                    for sc in (match[c], "i"):
+                        for v in rng.sample(ZVALS, 5) + [rand_int(rng, 4)]:
+                            yield "gmp_print_scan_Z %s %s %s" % (sbytes("%" + fl + w + p + "Z" + c), sbytes("%Z" + sc), hx(v))
+                for sc in (match[c], "i"):
+                    for (n, d) in rng.sample(QVALS, 4) + [(rand_int(rng, 3), abs(rand_int(rng, 2, False)) + 2)]:
+                        yield "gmp_print_scan_Q %s %s %s %s" % (sbytes("%" + fl + w + "Q" + c), sbytes("%Q" + sc), hx(n), hx(d))
+
+SCAN_INPUTS = ["", " ", "-", "+", "0", "-0", "+0", "00", "0x", "0X", "0x/", "0xg", "0x1f", "-0x1f", "+0X1F", "08", "019", "017", "1f", "ff/1f",
+               "12", "-12", "+12", "  12", "\t\n12 ", "12abc", "abc", "--5", "+-5", "-+5", "12/", "/5", "12/5", "-12/5", "12/-5", "12/+5", "12 /5", "12/ 5",
+               "0x10/0x11", "0x10/11", "010/8", "1/0", "1/0x", "1 2 3", "1,2", "1 , 2", "%5", " %5", "x=12;", "a(5) = 1234\n",
+               "12345678901234567890123456789012345678901234567890", "-12345678901234567890123456789012345678901234567890/7", "99999999999999999999 hello 7",
+               "A", "zz", "7fffffffffffffff", "1e5", "1.5", "١٢"]
+SCAN_FORMATS = [("%Zd", "z"), ("%Zi", "z"), ("%Zx", "z"), ("%ZX", "z"), ("%Zo", "z"), ("%Zu", "z"), ("%Qd", "q"), ("%Qi", "q"), ("%Qx", "q"), ("%Qo", "q"),
+                ("%1Zd", "z"), ("%2Zd", "z"), ("%3Zd", "z"), ("%1Zi", "z"), ("%2Zi", "z"), ("%3Zi", "z"), ("%3Qd", "q"), ("%4Qi", "q"), ("%2Zx", "z"),
+                ("%Zd%n", "zn"), ("%Zi%n", "zn"), ("%Qi%n", "qn"), ("%Zd%Zn", "zz"), ("%Zd%ln", "zn"), ("%3Zd%Zd", "zz"), ("%Zd %Zd", "zz"), ("%Zd,%Zd", "zz"),
+                ("%Zd %Qd %Zd", "zqz"), ("%*Zd %Zd", "z"), ("%*Zd%n", "n"), ("%*3Zd%Zd", "z"), ("x=%Zd;", "z"), ("a(%ld) = %Zd\n", "lz"), ("%%%Zd", "z"), (" %%%Zd", "z"),
+                ("%ld %Zd", "lz"), ("%Zd %ld", "zl"), ("%lx%Zx", "lz"), ("%li %Zi", "lz"), ("%Zd %s %ld", "zbl"), ("%s", "b"), ("%3s%Zd", "bz"), ("%c%Zd", "bz"), ("%2c%n", "bn"),
+                ("%Zd%c", "zb"), ("", ""), ("abc", ""), (" ", ""), ("%n", "n"), ("%lu", "l"), ("%lo %Zo", "lz")]
+def scans(rng, tier):
+    esc = lambda t: t.encode().decode("unicode_escape").encode("latin-1") if "\\" in t else t.encode()
+    import re
+    for f, ty in SCAN_FORMATS:
+        for inp in SCAN_INPUTS:
+            # a bare "0x" in front of a C-library conversion is glibc's business (it accepts it): not generated
+            if re.match(r"^[^%]*%l[xi]", f) and re.match(r"^\s*[-+]?0[xX]([^0-9a-fA-F]|$)", inp): continue
+            fam = rng.choice(["gmp_sscanf", "gmp_sscanf", "gmp_vsscanf"])
+            yield "%s %s %s %s" % (fam, sbytes(esc(f)), sbytes(ty), sbytes(esc(inp)))
+            fam = rng.choice(["gmp_fscanf", "gmp_fscanf", "gmp_vfscanf"])
+            yield "%s %s %s %s" % (fam, sbytes(esc(f)), sbytes(ty), sbytes(esc(inp)))
+
+def scan_positions(rng, tier):
+    """well-formed fields damaged at every position (truncation, inserted or replaced character) and every
+    width 1..len+1: the count returned, the value, %n and the stream position say how far the scanner went"""
+    bases = [("-0x1f/0x3", ["%Qi%n", "%Zi%n", "%Qx%n"]), ("123/45 6", ["%Qd%n", "%Zd%n", "%Qd %Zd%n"]), ("+0777/010", ["%Qi%n", "%Qo%n", "%Zo%n"]),
+             ("  -98765432109876543210", ["%Zd%n", "%Zi%n", "%*Zd%n"]), ("0x7f 0X80", ["%Zi %Zi%n", "%Zx %Zx%n"]), ("12,34", ["%Zd,%Zd%n", "%Zd ,%Zd%n"])]
+    tys = lambda f: "".join({"Q": "q", "Z": "z"}[m] for m in __import__("re").findall(r"%\d*([QZ])[dioxX]", f)) + "n"
+    for text, fmts in bases:
+        variants = set()
+        for i in range(len(text) + 1):
+            variants.add(text[:i])
+            for ch in "x/- g0":
+                variants.add(text[:i] + ch + text[i:]); variants.add(text[:i] + ch + text[i + 1:])
+        for f in fmts:
+            for t in sorted(variants):
+                yield "gmp_fscanf %s %s %s" % (sbytes(f), sbytes(tys(f)), sbytes(t))
+                if rng.random() < 0.3: yield "gmp_sscanf %s %s %s" % (sbytes(f), sbytes(tys(f)), sbytes(t))
+            for wdt in range(1, len(text) + 2):
+                fw = f.replace("%Q", "%%%dQ" % wdt, 1).replace("%Z", "%%%dZ" % wdt, 1) if ("%Q" in f or "%Z" in f) else f
+                yield "gmp_fscanf %s %s %s" % (sbytes(fw), sbytes(tys(f)), sbytes(text))
+                yield "gmp_sscanf %s %s %s" % (sbytes(fw), sbytes(tys(f)), sbytes(text))
+
 def gen_ops(rng, tier, ctx=None):
     yield from cross(rng, tier)
     yield from perm_flags(rng)
     yield from sizes_sweep(rng, tier)
     yield from mixed(rng, tier)
     yield from asprintf_lengths(rng, tier)
+    yield from roundtrip(rng, tier)
+    yield from scans(rng, tier)
+    yield from scan_positions(rng, tier)
